@@ -122,6 +122,13 @@ def rule_bp(ctx, rep):
                 rep.check(lockset.SIGBLOCKED in must.get(c.id, ()), "C19.bp", "%s.%s.blocked-at-lock" % (name, lk.lstrip("@")), "all signals are blocked when %s is taken on the registration path" % lk,
                           "%s is acquired on the lazy-registration path with signals unblocked: a handler whose rcu_read_lock() re-enters urcu_bp_register() on this thread "
                           "blocks forever on the non-recursive mutex" % lk, [c.where()])
+        # the thread's TLS reader pointer decides whether a handler's rcu_read_lock() registers: it changes only while signals
+        # are blocked, together with the slot it refers to (set after the slot is linked, cleared when the slot is released)
+        for s_ in pat.stores(f, glob="urcu_bp_reader"):
+            n += 1
+            rep.check(lockset.SIGBLOCKED in must.get(s_.id, ()), "C19.bp", "%s.tls-update-blocked@%d" % (name, s_.line), "the TLS reader pointer is updated with all signals blocked",
+                      "URCU_TLS(urcu_bp_reader) is written with signals unblocked: a handler running in between sees a pointer that disagrees with the registry "
+                      "(stale slot no grace period scans, or double registration)", [s_.where()])
         for c in pat.calls(f, "pthread_sigmask"):
             if ir.const_of(f, c.args[0]) == 2:
                 held = [x for x in may.get(c.id, ()) if x in ("@rcu_registry_lock", "@rcu_gp_lock") or (name == "urcu_bp_register" and x != lockset.SIGBLOCKED)]
